@@ -9,7 +9,7 @@ from dataclasses import replace
 import z3
 
 from . import model as M
-from .model import (EMPTY, Int, Bool, KIND, NULL, PYNONE, Ref, Str, BackInserter, Bound, ElemRef, Func, Iter, Lam, NodeVal,
+from .model import (EMPTY, Int, Bool, KIND, NULL, PYNONE, Ref, Str, BackInserter, Bound, ElemRef, Func, Iter, Lam, NodeVal, OptNode,
                     NodeVec, Opaque, PairVec, Ptr, PtrVec, PyObj, ScalarVec, SpecObj, Tup, fresh)
 
 # epoch-indexed length of mutable Python containers reachable from user code
@@ -479,6 +479,8 @@ def method(eng, st, base, name, A, n, callee=None):
             return [(st, o)]
         if name in ('size',):
             return [(st, M.py_len(o.ref))]
+        if name == 'get_stored':
+            return [(st, o)]
         if name == 'attr':
             eng.may_call_python(st, 'getattr', line)
             return [(st, PyObj(fresh('attr', Ref)))]
@@ -492,6 +494,14 @@ def method(eng, st, base, name, A, n, callee=None):
             if q is None:
                 raise Unsupported(f'PyTreeSpec::{name}')
             return call_repo(eng, st, q, base, A, n)
+    if isinstance(base, OptNode):
+        if name in ('operator bool', 'has_value'):
+            return [(st, base.has)]
+        if name == 'value_or':
+            alt = eng.to_nodeval(st, A[0])
+            return [(st, NodeVal(tuple((k, z3.If(base.has, base.node.get(k), alt.get(k))) for k in M.NODE_FIELDS)))]
+        if name == 'value':
+            return [(st, base.node)]
     if isinstance(base, NodeVal):
         raise Unsupported(f'method {name} on node value')
     if z3.is_expr(base) and base.sort() == Str:
@@ -508,7 +518,15 @@ def method(eng, st, base, name, A, n, callee=None):
                     return [(st, hook(eng, st, caught, A))]
                 return [(st, fresh('exc_matches', Bool))]
             return [(st, Opaque('str'))]
-        if name in ('call_once_and_store_result', 'get_stored'):
+        if name == 'call_once_and_store_result':
+            # gil_safe_call_once_and_store: the stored object is the attribute named in the initialiser lambda
+            lit = ''
+            if A and isinstance(A[0], Lam):
+                for d in eng.walk(A[0].node):
+                    if d.k == 'StringLiteral':
+                        lit = d['v'].strip('"')
+            return [(st, PyObj(z3.Const('py_attr_' + (lit or 'stored'), Ref), stable=True))]
+        if name == 'get_stored':
             return [(st, base)]
     if isinstance(base, Tup) and name in ('first', 'second'):
         return [(st, base.items[0 if name == 'first' else 1])]
@@ -821,6 +839,8 @@ def construct(eng, n, st):
                 outs.append((s, vals[0]))          # copy / move / converting construction keeps the referent
             elif len(vals) == 1 and z3.is_expr(vals[0]) and vals[0].sort() == Ref:
                 outs.append((s, PyObj(vals[0])))
+            elif not vals and short == 'none':
+                outs.append((s, PyObj(PYNONE, stable=True)))
             elif not vals:
                 outs.append((s, PyObj(NULL)))
             elif len(vals) == 1 and isinstance(vals[0], Ptr) and vals[0].oid is None:
